@@ -8,6 +8,7 @@ def run(res, a):
         return conc.replay(res, "C09", a.replay)
     vlib.proof_stage(res, "C09", files=["C09abandon"])
     conc.run_corpus(res, "C09")
+    conc.run_exit_orders(res, "C09", a.seed, a.tier, {"content", "abandoned-leak", "segment-leak"})
     envs = [None, {"VERIF_RECLAIM_ON_FREE": "1"}, {"VERIF_NO_ARENA": "1", "VERIF_RECLAIM_ON_FREE": "1"}, {"VERIF_TARGET_SEGMENTS": "2"},
             {"VERIF_BIG_ARENA": "1"}, {"VERIF_NO_ARENA": "1"}, {"VERIF_BIG_ARENA": "1", "VERIF_RECLAIM_ON_FREE": "1"}]
     conc.run_conc(res, "C09", a.seed, a.tier, envs=envs if a.tier == "thorough" else envs[:5], nseeds_quick=24)
